@@ -42,8 +42,8 @@ ASSUMPTIONS = [
 ]
 
 DELAY_CLASSES = ['omitted', 'none', 'zeros', 'sorted', 'descending', 'unsorted', 'repeated', 'single-large', 'all-positive']
-BG_KINDS = ['noise', 'noise+tone', 'coded', 'coded+noise']
-OWN_KINDS = ['none', 'noise', 'noise+tone', 'coded']
+BG_KINDS = ['noise', 'noise+tone', 'coded', 'coded+noise', 'coded-complex']
+OWN_KINDS = ['none', 'noise', 'noise+tone', 'coded']        # + 'coded-complex', forced whenever the background is complex
 PARTS = ['single', 'min-size', 'mixed', 'many']
 CLOCKS = ['none', 'set_time', 'add_time', 'reset_start', 'double', 'before-first']
 FORMS = ['list', 'tuple', 'ndarray']
@@ -118,6 +118,8 @@ def _content(rng, kind, rate, fch1, asc):
                          level=float(common.pick(rng, [1.0, 0.25, 5.0])), phase=float(rng.uniform(0, 2 * math.pi)))
     if 'coded' in kind:
         c['salt'] = int(rng.integers(2 ** 31))
+    if kind == 'coded-complex':
+        c['cplx'] = True
     return c
 
 
@@ -155,6 +157,8 @@ def gen_cases(seed, tier):
         npol = 1 + common.stratum(i, 152, 2)
         bgk = common.stratum(i, 153, BG_KINDS)
         ownk = common.stratum(i, 154, OWN_KINDS)
+        if bgk == 'coded-complex':
+            ownk = 'coded-complex'       # a complex background can only be added to complex antenna voltages
         big = tier == 'thorough' and common.stratum(i, 155, 41) == 0
         na = int(rng.integers(1, 7))
         if dcls in ('sorted', 'descending', 'unsorted', 'repeated') and na < 2:
@@ -197,8 +201,12 @@ def gen_cases(seed, tier):
 
 # --------------------------------------------------------------------------- driving the API
 
-def _table(salt):
-    return np.random.default_rng([salt, 1515]).integers(-1000, 1001, size=TABLE).astype(float)
+def _table(salt, cplx=False):
+    g = np.random.default_rng([salt, 1515])
+    t = g.integers(-1000, 1001, size=TABLE).astype(float)
+    if cplx:
+        t = t + 1j * g.integers(-1000, 1001, size=TABLE).astype(float)
+    return t
 
 
 def _coded_source(tbl, clk, rate):
@@ -217,7 +225,7 @@ def _equip(stream, content, clk, rate, coded=True):
         t = content['tone']
         stream.add_constant_signal(f_start=t['f'], drift_rate=t['drift'], level=t['level'], phase=t['phase'])
     if 'salt' in content and coded:
-        stream.add_signal(_coded_source(_table(content['salt']), clk, rate))
+        stream.add_signal(_coded_source(_table(content['salt'], content.get('cplx', False)), clk, rate))
 
 
 def _build(stg, c, delays_kw):
@@ -286,8 +294,9 @@ def run_case(c, R):
         for i in range(na):
             _equip(_streams(arr.antennas[i], npol)[p], c['own'][i][p], clk, rate)
             _equip(_streams(twin.antennas[i], npol)[p], c['own'][i][p], clk, rate, coded=False)
-    bg_tbl = [(_table(c['bg'][p]['salt']) if 'salt' in c['bg'][p] else None) for p in range(npol)]
-    own_tbl = [[(_table(c['own'][i][p]['salt']) if 'salt' in c['own'][i][p] else None) for p in range(npol)]
+    cplx = bool(c['bg'][0].get('cplx'))
+    bg_tbl = [(_table(c['bg'][p]['salt'], cplx) if 'salt' in c['bg'][p] else None) for p in range(npol)]
+    own_tbl = [[(_table(c['own'][i][p]['salt'], cplx) if 'salt' in c['own'][i][p] else None) for p in range(npol)]
                for i in range(na)]
 
     # feature buckets
@@ -369,8 +378,8 @@ def run_case(c, R):
                     if not good and not det:
                         j = int(np.argmax(err > bound))
                         det = dict(pol='xy'[p], antenna=i, delay=d[i], maxdelay=D, request=r, size=n, first_bad_offset=j,
-                                   got=float(out[i, p, j]), want=float(want[j]), bound=bound, nbad=int((err > bound).sum()),
-                                   observed_shift=_fit_shift(out[i, p], own, bg_ref[p], a + D - d[i], D, bound),
+                                   got=str(out[i, p, j]), want=str(want[j]), bound=bound, nbad=int((err > bound).sum()),
+                                   observed_shift=None if cplx else _fit_shift(out[i, p], own, bg_ref[p], a + D - d[i], D, bound),
                                    fits_other_pol=bool(npol == 2 and np.max(np.abs(
                                        out[i, p] - own - np.take(bg_ref[1 - p], k + (D - d[i])))) <= bound))
                 R.count('samples_compared', n * npol)
@@ -398,14 +407,14 @@ def run_case(c, R):
                 raise
             out = np.array(out)
             total_reqs += 1
-            if not R.check(out.shape == (na, npol, n) and not np.iscomplexobj(out), pre + 'output-shape',
+            if not R.check(out.shape == (na, npol, n) and bool(np.iscomplexobj(out)) == cplx, pre + 'output-shape-or-dtype', complex_expected=cplx,
                            shape=list(out.shape), want=[na, npol, n]):
                 return
             for i in range(na):
                 for p in range(npol):
                     st = _streams(twin.antennas[i], npol)[p]
                     own_chunks[i][p].append(np.array(st.get_samples(n), dtype=float))
-            reqs.append((n, out.astype(float)))
+            reqs.append((n, out.astype(complex if cplx else float)))
             delivered += n
             continue
         if op[0] == 'bgupd':
